@@ -7,6 +7,9 @@ from common import show_list
 LEVEL = "proof"
 LEAN_PROPS = ["FastTicc.Props.C11", "FastTicc.Props.OptPhase"]
 LEAN_HELPERS = ["FastTicc.Proofs.Index"]
+LEAN_TRANSLATED = {"FastTicc.Props.TrIndex": ["_size_including_this_row", "_elements_in_row_after_target", "_compressed_index",
+                                             "_block_start_coordinates", "_unique_variable_locations",
+                                             "locations_compressed", "locations_index_slices"]}
 RULE = ("exhaustive enumeration: every matrix size n <= Nmax for the compression maps "
         "(every (r,c) pair), every (N,W) with N<=10, W<=14 for the class maps (every class); "
         "a case is one (n) or one (N,W) shape; non-trivial = n>=2 resp. N*W>=2; distinct by shape")
@@ -81,6 +84,7 @@ def run(ctx):
                     meta.append(("cidx", n, r, c))
     model_out = dict(zip(meta, ctx.driver.run(lines)))
 
+    gen_cidx = []
     for pass_no in range(2):        # caches cleared / not cleared
         if pass_no == 0:
             clear()
@@ -115,6 +119,8 @@ def run(ctx):
                             s = "nonint"
                     except IndexError:
                         k, s = None, "err"
+                    if n <= 40 and s != "nonint" and pass_no == 0:
+                        gen_cidx.append((f"{r} {c} {n}", "err IndexError" if s == "err" else "ok " + s, {"n": n, "r": r, "c": c}))
                     if n <= model_n_cidx and s != model_out[("cidx", n, r, c)]:
                         ctx.violation("correspondence-break", "compressedIndex? vs _compressed_index",
                                       {"n": n, "r": r, "c": c, "impl": s})
@@ -173,6 +179,9 @@ def run(ctx):
             if bad:
                 break
 
+    # the closed-form index TRANSLATED from the source (Generated/Kernels.lean) on the same arguments
+    ctx.gen_compare("_compressed_index", gen_cidx or [])
+
     # ------------------------------------------------------------ class maps
     lines, meta = [], []
     for (N, W) in shapes_nw:
@@ -189,6 +198,7 @@ def run(ctx):
     meta.append(("bs_err0",))
     model_out = dict(zip(meta, ctx.driver.run(lines)))
 
+    gen_loc, gen_slices = [], []
     for pass_no in range(2):
         if pass_no == 0:
             clear()
@@ -209,9 +219,14 @@ def run(ctx):
                         # return any iterable, e.g. a generator, as long as its public callers materialise it)
                         pos = list(zip(rows, cols))
                         in_upper = (b > 0) or (c >= r)
+                        if pass_no == 0:
+                            gen_slices.append((f"{b} {r} {c} {N} {W}", "ok " + show_list(rows) + " " + show_list(cols),
+                                               {"NW": [N, W], "class": [b, r, c]}))
                         if in_upper:
                             comp = list(uv.locations_compressed(b, r, c, N, W))
                             comp_s = show_list([int(x) for x in comp])
+                            if pass_no == 0:
+                                gen_loc.append((f"{b} {r} {c} {N} {W}", "ok " + comp_s, {"NW": [N, W], "class": [b, r, c]}))
                         else:
                             # below-diagonal entries of the diagonal block are outside the
                             # upper triangle: the compressed form must refuse them
@@ -220,6 +235,8 @@ def run(ctx):
                                 comp, comp_s = None, "noerr"
                             except IndexError:
                                 comp, comp_s = None, None
+                                if pass_no == 0:
+                                    gen_loc.append((f"{b} {r} {c} {N} {W}", "err IndexError", {"NW": [N, W], "class": [b, r, c]}))
                         got = (show_list(pos, lambda p: f"{p[0]}:{p[1]}") + " "
                                + (comp_s if comp_s is not None else "") + " "
                                + show_list(rows) + " " + show_list(cols))
@@ -278,6 +295,10 @@ def run(ctx):
                 ctx.case(("NW", N, W), nontrivial=N * W >= 2,
                          sample={"N": N, "W": W, "classes": len(cls)} if (N, W) in ((2, 3), (10, 14)) else None)
                 ctx.count("class_shapes")
+    # the class maps TRANSLATED from the source on the same arguments (incl. the documented argument errors)
+    ctx.gen_compare("locations_compressed", gen_loc + [("5 0 0 2 3", "err IndexError", {}), ("0 0 0 0 3", "err ValueError", {})])
+    ctx.gen_compare("locations_index_slices", gen_slices + [("5 0 0 2 3", "err IndexError", {}), ("0 0 0 0 3", "err ValueError", {}),
+                                                            ("-1 0 0 2 3", "err IndexError", {})])
     try:
         if bsc_fn is not None:
             bsc_fn(0, 0, 3)
